@@ -381,6 +381,57 @@ func ruleR072(c *Ctx, r *Repo) {
 		okExit := p.Exit == "continue" || p.Exit == "end" || p.Exit == "panic" || p.Exit == "return" && len(p.Ret) > 0 && p.Ret[len(p.Ret)-1] != "nil"
 		c.Check(okExit, "R07.2", "ParsePackages|declined-continues", r.Pos(rs.Pos()), "a declined candidate hands over to the next", "a candidate that is not appended ends the scan of its file ("+p.Exit+"): the interfaces declared after it are never found: "+p.String())
 	}
+	// every file of a loaded package is walked: in the loops that enclose the candidate loop, a round that does
+	// not fail reaches the walk of its element (round 6: files carrying a "DO NOT EDIT" line were skipped, so the
+	// interfaces of generated sources -- protobuf/gRPC clients -- could no longer be mocked). The one admitted
+	// skip is a package without Go files.
+	{
+		var encl []*ast.RangeStmt
+		var stack []ast.Node
+		ast.Inspect(pp.Body, func(n ast.Node) bool {
+			if n == nil {
+				stack = stack[:len(stack)-1]
+				return true
+			}
+			stack = append(stack, n)
+			if n == ast.Node(rs) {
+				for _, a := range stack[:len(stack)-1] {
+					if x, ok := a.(*ast.RangeStmt); ok {
+						encl = append(encl, x)
+					}
+				}
+			}
+			return true
+		})
+		for _, outer := range encl {
+			de := newDT(info)
+			de.callInline = pkgUnexported(ip)
+			st := de.envBefore(seedEnv(de, pp), pp.Body.List, outer)
+			if v, ok := outer.Value.(*ast.Ident); ok && info.Defs[v] != nil {
+				st.env[info.Defs[v]] = "ELEM"
+			}
+			de.paths = nil
+			de.stmts(st, outer.Body.List, func(p *dtPath) { de.finish(p, "end") })
+			for _, p := range de.paths {
+				if p.Exit == "return" && len(p.Ret) > 0 && p.Ret[len(p.Ret)-1] != "nil" || p.Exit == "panic" {
+					continue
+				}
+				reaches := hasStep(p, "loop") > 0
+				if reaches && p.Exit == "end" {
+					continue
+				}
+				// the package without Go files
+				emptyPkg := false
+				for _, a := range p.Atoms {
+					if v, ok := lenAtom(a.Expr, "builtin.len(ELEM.GoFiles)", 0); ok && v == a.Val {
+						emptyPkg = true
+					}
+				}
+				c.Check(emptyPkg && p.Exit == "continue", "R07.2", "ParsePackages|element-skipped", r.Pos(outer.Pos()), "only a package without Go files is passed over", "a package or file is passed over without being scanned for interfaces ("+p.Exit+"): the interfaces it declares can never be mocked: "+p.String())
+			}
+		}
+		c.Check(len(encl) >= 1, "R07.2", "ParsePackages|enclosing-loops", r.Pos(rs.Pos()), "package/file loops examined", "the candidate loop is not nested in a loop over packages or files (shape not recognised)")
+	}
 	for _, g := range withCallees(ip, pp) {
 		if g != pp && !pkgUnexportedHas(ip, g) {
 			continue
